@@ -25,6 +25,9 @@ class Var:
         self.elem = elem  # for list: element kind
 
 
+HAZARD_INDEX_TWICE = "compound-index-assignment-with-effectful-index"
+
+
 class Cfg:
     def __init__(self, **kw):
         self.max_depth = 4
@@ -36,6 +39,7 @@ class Cfg:
         self.closures = False
         self.classes = False
         self.exceptions = False
+        self.effectful_index = False  # G: index functions of compound index assignments count their calls (C01 opts in)
         self.exc_fibers = False  # GE: workers that catch errors of their own while main waits on a channel
         self.returns = True
         self.hazards = set()  # hazard tags whose construct must not be generated
@@ -288,8 +292,10 @@ class G:
         c = self.i(0, 99)
         if c < 22:
             return [self.let_stmt(d)]
-        if c < 40:
+        if c < 37:
             return [("print", self.expr("any", d))]
+        if c < 40:
+            return self.index_opassign_stmt()
         if c < 50:
             vs = self.visible(lambda v: v.mutable and v.kind in KINDS)
             if vs:
@@ -312,6 +318,34 @@ class G:
         if c < 96 and self.cfg.lambdas:
             return [self.lambda_let(d)]
         return [("expr", self.expr("any", d))]
+
+    def index_opassign_stmt(self):
+        """xs[ix()] op= e; on a list or a map whose index / key comes from a function that counts its calls: the
+        index is evaluated once, before the right hand side."""
+        xs, ct, ix = self.fresh("xs"), self.fresh("ct"), self.fresh("ix")
+        effectful = self.cfg.effectful_index and HAZARD_INDEX_TWICE not in self.cfg.hazards
+        as_map = self.chance(30)
+        if as_map:
+            coll = ("map", [(("str", "a"), ("num", 1.0)), (("str", "b"), ("num", 2.0))])
+            first, later = ("str", "a"), ("str", "b")
+        else:
+            coll = ("list", [("num", 1.0), ("num", 2.0), ("num", 3.0)])
+            first, later = ("num", float(self.i(0, 1))), ("num", 2.0)
+        out = [("let", xs, coll), ("let", ct, ("num", 0.0))]
+        if effectful:
+            body = [("expr", ("assign", ("var", ct), ("bin", "+", ("var", ct), ("num", 1.0)))),
+                    ("return", ("tern", ("bin", "==", ("var", ct), ("num", 1.0)), first, later))]
+        else:
+            # (known finding: the index expression of a compound assignment is evaluated twice)
+            body = [("return", first)]
+        out.append(("fn", ix, [], body))
+        op = self.pick(["+", "-", "*", "/"])
+        target = ("index", ("var", xs), ("call", ("var", ix), []))
+        e = ("opassign", op, target, self.expr("num", 1))
+        out.append(("print", e) if self.chance(40) else ("expr", e))
+        out.append(("print", ("var", xs)))
+        out.append(("print", ("var", ct)))
+        return out
 
     def exit_stmt(self, make):
         """A break / continue / return in one of the positions it can take: alone in a then-arm, at the end of a
